@@ -84,6 +84,24 @@ func TestReplayRecorded(t *testing.T) {
 		t.Fatalf("cannot parse plan: %v", err)
 	}
 	switch {
+	case probe["bystanders"] != nil: // round 6: data path during management (schedules are not reproducible: repeat)
+		var p dpPlan
+		if err := json.Unmarshal([]byte(doc), &p); err != nil {
+			t.Fatal(err)
+		}
+		for i := 0; i < 50; i++ {
+			if res := runDPPlan(p); res.violation != "" {
+				t.Fatalf("%s\n  plan: %s", res.violation, p)
+			}
+		}
+	case probe["families"] != nil: // round 6: unusual names and documents
+		var p nplan
+		if err := json.Unmarshal([]byte(doc), &p); err != nil {
+			t.Fatal(err)
+		}
+		if out := runNPlan(t, p); out.violation != "" {
+			t.Errorf("%s\n  plan: %s", out.violation, p)
+		}
 	case probe["ops"] != nil:
 		var p cplan
 		if err := json.Unmarshal([]byte(doc), &p); err != nil {
